@@ -233,7 +233,7 @@ func runSock(kind, mode string, pa, pb []byte) (impl, oracle string) {
 	rb.wait(timeout, func() bool { return rb.eof })
 	// The auditor of a copy that was interrupted by the cancellation may still be
 	// about to run: give the totals a moment to reach what the peers received.
-	for i := 0; i < 2000; i++ {
+	for settleDeadline := time.Now().Add(200 * time.Millisecond); time.Now().Before(settleDeadline); {
 		ra.mu.Lock()
 		rb.mu.Lock()
 		settled := aud0.Load() == uint64(len(ra.data)) && aud1.Load() == uint64(len(rb.data))
